@@ -12,7 +12,7 @@ EXTENDS Gen, Json
 CONSTANT MaxLen
 VARIABLES T, v, kind
 
-Kinds == {"req", "val", "fac", "optnone", "optval", "valnone", "kwreq", "kwval", "noinit"}
+Kinds == {"req", "val", "fac", "optnone", "optval", "optzero", "valnone", "kwreq", "kwval", "noinit"}
 FN(i) == <<"f1", "f2", "f3", "f4">>[i]
 IntL == <<"list", <<"int">> >>
 FieldOf(k, i) ==
@@ -21,6 +21,7 @@ FieldOf(k, i) ==
     [] k = "fac"     -> <<FN(i), IntL, <<"fac", L(<<I(1)>>)>>, <<>> >>
     [] k = "optnone" -> <<FN(i), <<"opt", <<"int">> >>, <<"val", None>>, <<>> >>
     [] k = "optval"  -> <<FN(i), <<"opt", <<"int">> >>, <<"val", I(7)>>, <<>> >>
+    [] k = "optzero" -> <<FN(i), <<"opt", <<"int">> >>, <<"val", I(0)>>, <<>> >>      \* nullable, FALSY non-None default
     [] k = "valnone" -> <<FN(i), <<"int">>, <<"val", None>>, <<>> >>
     [] k = "kwreq"   -> <<FN(i), <<"int">>, <<"req">>, << <<"kw_only", TRUE>> >> >>
     [] k = "kwval"   -> <<FN(i), <<"int">>, <<"val", I(6)>>, << <<"kw_only", TRUE>> >> >>
